@@ -1,0 +1,36 @@
+//go:build verif
+
+package qos
+
+import "sync"
+
+// stepHookForVerif, when set for a manager, runs on the calling goroutine at the points
+// between the separate writes of SetSubscriberQoS (1: after the egress bucket, 2: after the
+// ingress bucket, before the subscriber table) and of RemoveSubscriberQoS (3: after the egress
+// delete, 4: after the ingress delete, before the subscriber table). A harness parks a call
+// there (the function blocks) while it runs another call, to produce a chosen interleaving of
+// two control-plane calls. Verification harness only.
+var (
+	stepHookMu       sync.Mutex
+	stepHookForVerif = map[*Manager]func(point int){}
+)
+
+func (m *Manager) verifStep(point int) {
+	stepHookMu.Lock()
+	f := stepHookForVerif[m]
+	stepHookMu.Unlock()
+	if f != nil {
+		f(point)
+	}
+}
+
+// SetStepHookForVerif installs (or, with nil, removes) the function run at those points.
+func (m *Manager) SetStepHookForVerif(f func(point int)) {
+	stepHookMu.Lock()
+	defer stepHookMu.Unlock()
+	if f == nil {
+		delete(stepHookForVerif, m)
+		return
+	}
+	stepHookForVerif[m] = f
+}
